@@ -207,9 +207,27 @@ func c10Purity(r *engine.Run) {
 				ref[key] = a
 			}
 		}
-		for key, want := range ref {
-			_ = key
-			_ = want
+		// a search is a read: one issued from inside another search's callback on the same tree must
+		// not disturb the outer one (the sequential face of "shared trees can be searched concurrently")
+		for _, q := range boxes[k] {
+			var plain, nested []int
+			_ = t.PrioritySearch(q, func(id int) error { plain = append(plain, id); return nil })
+			_ = t.PrioritySearch(q, func(id int) error {
+				nested = append(nested, id)
+				if len(nested) > 4*t.Count()+16 {
+					return fmt.Errorf("runaway search") // a disturbed heap must not be allowed to loop forever
+				}
+				far := rtree.Box{MinX: q.MaxX + 50, MinY: q.MaxY - 70, MaxX: q.MaxX + 51, MaxY: q.MaxY - 69}
+				t.Nearest(far)
+				_ = t.RangeSearch(far, func(int) error { return nil })
+				return nil
+			})
+			r.Transitions.Add(2)
+			r.Evaluations.Add(1)
+			if fmt.Sprint(plain) != fmt.Sprint(nested) {
+				r.Violation("C10/purity.nestedSearchDisturbsOuter", "purity", c10Case{Op: "PrioritySearch with searches from its callback", A: fmt.Sprint("tree ", k, " query ", q)}, fmt.Sprint(nested, " vs ", plain))
+				break
+			}
 		}
 		if fmt.Sprint(t.VerifCheck(), t.Count()) != before {
 			r.Violation("C10/purity.treeChanged", "purity", c10Case{Op: "searches", A: fmt.Sprint("tree ", k)}, "")
